@@ -1,5 +1,6 @@
 import J5V.Go.Hex
 import J5V.Print.Layout
+import J5V.Print.Grammar
 /-!
 # Wire format of descriptor summaries (stream `print.file`; core only)
 
@@ -174,5 +175,68 @@ def pFile (ts : List String) : Option (String × FileD) := do
   let (n, r) ← pNat r
   let (items, r) ← pItems fuel n r
   if r.isEmpty then pure (gen, ⟨loc, pkg, imps, opts, exts, items⟩) else none
+
+/-! ## encoder: the summary of a file as a reader of the text sees it (`summarize2`) -/
+
+mutual
+def encTree : Opt → List String
+  | .scalar k v => ["S", encS k, encS v]
+  | .msg k ks => ["M", encS k, toString ks.length] ++ encTrees ks
+  | .arr k ks => ["A", encS k, toString ks.length] ++ encTrees ks
+def encTrees : List Opt → List String
+  | [] => []
+  | o :: r => encTree o ++ encTrees r
+end
+
+def encFlag (b : Bool) : String := if b then "1" else "0"
+
+def encLoc2 (l : Loc) : List String :=
+  ["L", toString l.startLine, toString l.endLine, toString l.detached.length] ++ l.detached.map encS ++
+  [encS l.leading, encS l.trailing]
+
+def encOpt2 (o : SOpt) : List String :=
+  ["O", encS o.name, encFlag o.hasLoc, encFlag o.singleLine, encFlag o.inlineParent, toString o.startLine,
+    toString o.stmts.length] ++ (o.stmts.map fun v => encTree (eraseKeys v)).flatten
+
+/-- options in the order of their printed names (the canonical order of the wire) -/
+def encOpts2 (os : List SOpt) : List String :=
+  toString os.length ::
+    ((Order.isort (fun a b => Order.nameLess (strToBytes a.name) (strToBytes b.name)) os).map encOpt2).flatten
+
+def encField2 (f : FieldD) : List String :=
+  ["F", (match f.kind with | .field => "f" | .value => "v")] ++ encLoc2 f.loc ++
+  [encS f.label, encS f.type, encS f.name, toString f.number,
+    (match f.json with | none => "N" | some j => "J" ++ encS j)] ++ encOpts2 f.opts
+
+def isBlock (kw : String) : Item → Bool
+  | .block k _ _ _ _ _ _ => k == kw
+  | _ => false
+
+def isField : Item → Bool
+  | .field _ => true
+  | _ => false
+
+mutual
+def encItem2 : Item → List String
+  | .field f => encField2 f
+  | .rpc l _ nm a b os => ["R"] ++ encLoc2 l ++ [encS nm, encS a, encS b] ++ encOpts2 os
+  | .block kw t l _ nm os ks =>
+    ["B", encS kw, toString t] ++ encLoc2 l ++ [encS nm] ++ encOpts2 os ++ [toString ks.length] ++
+    -- the order in which a descriptor lists them: fields, oneofs, nested messages, enums (methods, values)
+    encItems2 isField ks ++ encItems2 (isBlock "oneof") ks ++ encItems2 (isBlock "message") ks ++
+    encItems2 (isBlock "enum") ks ++ encItems2 (fun i => match i with | .rpc _ _ _ _ _ _ => true | _ => false) ks
+def encItems2 (p : Item → Bool) : List Item → List String
+  | [] => []
+  | x :: r => (if p x then encItem2 x else []) ++ encItems2 p r
+end
+
+/-- `<pkg> <nimports> imp* <nopts> OPT* <nexts> (<extendee> FIELD)* <nitems> ITEM*` (messages,
+services, enums) -/
+def encFile2 (f : FileD) : String :=
+  " ".intercalate (
+    [encS f.pkg, toString f.imports.length] ++ f.imports.map encS ++ encOpts2 f.opts ++
+    [toString f.exts.length] ++ (f.exts.map fun e => encS e.1 :: encField2 e.2).flatten ++
+    [toString f.items.length] ++ encItems2 (isBlock "message") f.items ++ encItems2 (isBlock "service") f.items ++
+    encItems2 (isBlock "enum") f.items)
 
 end J5V.Print.Wire
